@@ -39,6 +39,7 @@ static void add_continuation(Rng &r, Plan &p, int dir) {
         case 4: p.ops.push_back(Op("inject", dir, (int64_t) r.below(7), (int64_t) r.below(50), 0, "garbage")); break;
         case 5: p.ops.push_back(Op("pump")); break;
         }
+        if (p.get("ver") >= 3 && r.chance(1, 2)) { p.ops.push_back(Op("timer", (int64_t) r.below(2))); }      // DTLS: the resend timer of either endpoint fires (the dead one included)
     }
     p.ops.push_back(Op("pump"));
     p.ops.push_back(Op("send", 1 - dir, 10));
@@ -100,6 +101,27 @@ static std::vector<Plan> c15_fixed(int tier) {
                     p.ops.push_back(Op("send", dir, 20)); p.ops.push_back(Op("send", 1 - dir, 20)); p.ops.push_back(Op("pump"));
                     v.push_back(p);
                 }
+            }
+        }
+    }
+    // DTLS: the application's resend timer fires on an endpoint that is already dead (fatal alert received at any parking point / after
+    // completion, close_notify received): it must not rebuild and re-send its last handshake flight
+    for (int ver = 3; ver < 5; ver++) {
+        for (int dir = 0; dir < 2; dir++) {
+            for (int park = 0; park <= 6; park++) {
+                Plan p; p.seed = 960000 + (uint64_t) ((ver * 2 + dir) * 16 + park);
+                p.cfg["ver"] = ver; p.cfg["suite"] = ver == 3 ? TLS_ECDHE_ECDSA_WITH_AES_128_CBC_SHA : TLS_ECDHE_ECDSA_WITH_AES_128_GCM_SHA256;
+                if (park < 6) { p.ops.push_back(Op("steps", park)); } else { p.ops.push_back(Op("hs")); }
+                p.ops.push_back(Op("inject", dir, 1, 6 /* a fatal description */, 0, "alert")); p.ops.push_back(Op("pump"));
+                p.ops.push_back(Op("timer", 1 - dir)); p.ops.push_back(Op("timer", dir)); p.ops.push_back(Op("timer", 1 - dir)); p.ops.push_back(Op("pump"));
+                v.push_back(p);
+            }
+            {
+                Plan p; p.seed = 961000 + (uint64_t) (ver * 2 + dir);
+                p.cfg["ver"] = ver; p.cfg["suite"] = TLS_ECDHE_ECDSA_WITH_AES_128_CBC_SHA;
+                p.ops.push_back(Op("hs")); p.ops.push_back(Op("close", dir)); p.ops.push_back(Op("pump"));
+                p.ops.push_back(Op("timer", 1 - dir)); p.ops.push_back(Op("timer", dir)); p.ops.push_back(Op("pump"));
+                v.push_back(p);
             }
         }
     }
